@@ -21,6 +21,7 @@ object (the harness runs the programs at both levels).  Not modelled here (see D
 async callbacks, `Skip`.  kwargs mode (`watch_values`, `shown`) and Parameter-attribute (slot) watchers are modelled (`Stmt.setSlot`).
 -/
 import ParamVerif.Dispatch.Lemmas
+import ParamVerif.Dispatch.RegLemmas
 import ParamVerif.Dispatch.EqualLemmas
 
 namespace ParamVerif.Dispatch
@@ -159,6 +160,46 @@ theorem assignment_log_is_the_setter's (c : Cfg) (f : Nat) (w : World) (p : Nat)
     cases r1 <;> simp <;> split <;> simp
   · exact ⟨rfl, rfl⟩
 
+/-- **C03 (the object already shows the new value), on the log.**  When the first watcher of the
+dispatch order passes the filter, the first thing a non-batched assignment does is to invoke it, and the
+values that callback sees (`snap`, what the harness's callbacks read from the object) are the values
+before the assignment with `p` already holding `v`. -/
+theorem first_watcher_sees_the_new_value (c : Cfg) (f : Nat) (w : World) (p : Nat) (v : Int)
+    (wt : Watcher) (rest : List Watcher)
+    (hv : c.valid p v = true) (hb : w.batch = false)
+    (hws : sortByPrec (regsFor w p) = wt :: rest)
+    (hp : passes w.trigger wt { name := p, old := getVal w p, new := v } = true)
+    (h : (run c f (.setPlain p v) w).1 ≠ .oof) :
+    ∃ evs ch r tail, (run c f (.setPlain p v) w).2.2 = .call wt.cb evs false (w.vals.set p v) ch r :: tail := by
+  have hne : (regsFor w p).isEmpty = false := by
+    cases hr : regsFor w p with
+    | nil => rw [hr] at hws; simp [sortByPrec] at hws
+    | cons a l => rfl
+  cases f with
+  | zero => simp [run] at h
+  | succ f =>
+    -- the dispatch loop starts in the world where the value is stored, and its log starts with the first callback
+    have hd := dispatch_head_item c f { w with vals := w.vals.set p v } wt rest { name := p, old := getVal w p, new := v } hb hp
+    simp only [run, hv, Bool.not_true, Bool.false_eq_true, if_false, hne, hws] at h ⊢
+    generalize run c f (.dispatch (wt :: rest) { name := p, old := getVal w p, new := v }) { w with vals := w.vals.set p v } = d at h hd ⊢
+    obtain ⟨r1, w2, o1⟩ := d
+    cases r1 with
+    | oof => simp at h
+    | ok =>
+      obtain ⟨evs, ch, r, tail, ho⟩ := hd (by simp)
+      simp only at ho h ⊢
+      subst ho
+      split
+      · exact ⟨evs, ch, r, tail, rfl⟩
+      · exact ⟨evs, ch, r, _, List.cons_append⟩
+    | raised e =>
+      obtain ⟨evs, ch, r, tail, ho⟩ := hd (by simp)
+      simp only at ho h ⊢
+      subst ho
+      split
+      · exact ⟨evs, ch, r, tail, rfl⟩
+      · exact ⟨evs, ch, r, _, List.cons_append⟩
+
 /-- **C03 (the object already shows the new value).**  The value is installed before the first
 watcher is considered: the dispatch loop of `p := v` starts in a world where `p` holds `v`. -/
 theorem value_installed_before_dispatch (w : World) (p : Nat) (v : Int) (hp : p < w.vals.length) :
@@ -195,13 +236,55 @@ theorem order_then_registration (w : World) (p : Nat) (old v : Int) (k : Int) :
   funext x
   exact Bool.and_comm _ _
 
-/-- **C03 (exactly once).**  No watcher id occurs twice among the expected invocations as long as
-registered watchers have distinct ids. -/
-theorem each_at_most_once (w : World) (p : Nat) (old v : Int) (h : (w.regs.map (·.id)).Nodup) :
-    ((expectedFor w p old v).map (·.id)).Nodup := by
-  have h1 : ((regsFor w p).map (·.id)).Nodup := (List.filter_sublist.map _).nodup h
-  have h2 : ((sortByPrec (regsFor w p)).map (·.id)).Nodup := ((sortByPrec_perm _).map _).nodup_iff.2 h1
+/-- **C03 (exactly once).**  No Watcher object occurs twice among the expected invocations: registered
+Watcher objects have pairwise distinct identities (`RegsOk`; `uid`, not the id of the registering
+statement — a `watch` statement in a callback body registers a new object each time it runs). -/
+theorem each_at_most_once (w : World) (p : Nat) (old v : Int) (h : RegsOk w) :
+    ((expectedFor w p old v).map (·.uid)).Nodup := by
+  have h0 : (w.regs.map (·.uid)).Nodup := h.1
+  have h1 : ((regsFor w p).map (·.uid)).Nodup := (List.filter_sublist.map _).nodup h0
+  have h2 : ((sortByPrec (regsFor w p)).map (·.uid)).Nodup := ((sortByPrec_perm _).map _).nodup_iff.2 h1
   exact (List.filter_sublist.map _).nodup h2
+
+/-- … and that holds in every world a history can reach: whatever a call does (callbacks registering
+and removing watchers at any depth, failing statements), the registered Watcher objects keep pairwise
+distinct identities. -/
+theorem watcher_identities_stay_distinct (c : Cfg) (f : Nat) (call : Call) (w : World)
+    (h : (run c f call w).1 ≠ .oof) (hq : RegsOk w) : RegsOk (run c f call w).2.1 :=
+  regsOk_preserved c f call w h hq
+
+/-- the premise of the attribute theorem, for every reachable world: a registered attribute watcher has
+its (parameter, attribute) key recorded, whatever happened since (`unwatch` leaves the key behind) -/
+theorem attribute_keys_stay_recorded (c : Cfg) (f : Nat) (call : Call) (w : World)
+    (h : (run c f call w).1 ≠ .oof) (hq : SlotInv w) : SlotInv (run c f call w).2.1 :=
+  slotInv_preserved c f call w h hq
+
+/-- **C03 (Parameter attributes, all histories).**  The attribute theorem with its premise discharged
+by the invariant: in any world reachable from one that satisfies `SlotInv` (e.g. one without watchers). -/
+theorem slot_assignment_reaches_each_watcher_once_inv (c : Cfg) (f : Nat) (w : World) (p k : Nat) (v : Int)
+    (hk : k ≠ 0) (hinv : SlotInv w)
+    (hb : w.batch = false) (hok : (run c f (.setSlot p k v) w).1 = .ok) :
+    (callSigs (run c f (.setSlot p k v) w).2.2).filter (fun s => !s.2.2) =
+      ((regsForSlot w p k).filter (fun wt => passes w.trigger wt { name := p, old := getSlot w p k, new := v, what := k })).map
+        (fun wt => (wt.cb, shown wt [typed w.trigger wt { name := p, old := getSlot w p k, new := v, what := k }], false)) := by
+  refine slot_assignment_reaches_each_watcher_once c f w p k v hb hok ?_
+  intro hnot
+  apply List.eq_nil_iff_forall_not_mem.2
+  intro x hx
+  simp only [regsForSlot, List.mem_filter, Bool.and_eq_true, beq_iff_eq] at hx
+  obtain ⟨hxr, hxp, hxk⟩ := hx
+  have hp : p ∈ x.params := by simpa using hxp
+  exact hnot (hxk ▸ hinv x hxr (by rw [hxk]; exact hk) p hp)
+
+/-- **C03 (no watcher is skipped when a callback raises).**  If the assignment does not return
+normally because a callback raised, the watchers invoked directly so far are a *prefix* of the expected
+ones: same order, nobody skipped, nobody invoked twice; the rest are not invoked. -/
+theorem raised_assignment_invoked_a_prefix (c : Cfg) (ev : Ev) (ws : List Watcher) (f : Nat) (w : World)
+    (hb : w.batch = false) (h : (run c f (.dispatch ws ev) w).1 ≠ .oof) :
+    ∃ n, callSigs (run c f (.dispatch ws ev) w).2.2 =
+      ((ws.filter (fun wt => passes w.trigger wt ev)).map
+        (fun wt => (wt.cb, shown wt [typed w.trigger wt ev], false))).take n :=
+  dispatch_prefix c ev ws f w hb h
 
 /-- **C03 (a watcher removed before an assignment is not called for it).** -/
 theorem unwatched_not_expected (c : Cfg) (f : Nat) (w : World) (wid : Nat) (p : Nat) (old v : Int) :
@@ -263,6 +346,30 @@ example : exWorld.batch = false ∧ (run exCfg 50 (.setPlain 1 7) exWorld).1 = .
 -- watcher 1 (precedence 0) before watcher 0 (precedence 1); watcher 0's body assigns p0, dispatched depth-first
 example : (callSigs (run exCfg 50 (.setPlain 1 7) exWorld).2.2).map (·.1) = [1, 0] := by decide
 example : (expectedFor exWorld 1 2 2).map (·.id) = [1] := by decide   -- same value: changes-only watcher 0 skipped
+
+-- the registration invariants hold of the example world (and hence, by the two preservation theorems, of
+-- every world a history reaches from it)
+example : RegsOk { exWorld with nreg := 3 } := by
+  refine ⟨by decide, ?_⟩
+  intro x hx
+  simp [exWorld, mkW] at hx
+  rcases hx with rfl | rfl | rfl <;> decide
+-- a world with two attribute watchers (what = 1) of p0, the first of which removes itself: both are invoked
+def exSlotCfg : Cfg := { bounds := [(none, none)], bodies := [[.unwatch 0], []] }
+def exSlotWorld : World :=
+  { vals := [0], batch := false, trigger := false, events := [], queued := [], nreg := 2, slotKeys := [(0, 1)],
+    regs := [{ mkW 0 [0] false false 0 0 with what := 1 }, { mkW 1 [0] false false 0 1 with what := 1 }] }
+example : SlotInv exSlotWorld := by
+  intro x hx hne q hq
+  simp [exSlotWorld, mkW] at hx
+  rcases hx with rfl | rfl <;> simp_all [exSlotWorld]
+example : (run exSlotCfg 50 (.setSlot 0 1 5) exSlotWorld).1 = .ok ∧
+    (callSigs (run exSlotCfg 50 (.setSlot 0 1 5) exSlotWorld).2.2).map (·.1) = [0, 1] := by decide
+-- the first watcher of the dispatch order (watcher 1) sees p1 = 7
+example : sortByPrec (regsFor exWorld 1) = [mkW 1 [1, 0] false false 0 1, mkW 0 [1] true false 1 0] := by decide
+example : ∃ evs ch r tail, (run exCfg 50 (.setPlain 1 7) exWorld).2.2 = .call 1 evs false [1, 7] ch r :: tail :=
+  first_watcher_sees_the_new_value exCfg 50 exWorld 1 7 (mkW 1 [1, 0] false false 0 1) [mkW 0 [1] true false 1 0]
+    (by decide) rfl (by decide) (by decide) (by decide)
 
 example : plain (.dict [("k", .list [.num 1, .str "x", .none])]) = true ∧
     pyEq (.tuple [.num 1, .date 3]) (.tuple [.num 1, .date 3]) = true := by
